@@ -323,6 +323,33 @@ def generate(mod, verif_seed, index, tier):
     return json.loads(canon(sc))
 
 
+class Stuck(BaseException):
+    """An operation of the code under test did not return within its (generous) wall-clock allowance."""
+
+
+class deadline:
+    """Nested wall-clock guard for ONE operation that may not terminate (e.g. an unbounded loop in the code under test).
+    Restores the enclosing run alarm on exit. The operation must normally take microseconds; the allowance is seconds."""
+
+    def __init__(self, seconds):
+        self.seconds = seconds
+
+    def _fire(self, *_):
+        raise Stuck()
+
+    def __enter__(self):
+        self.old_handler = signal.signal(signal.SIGALRM, self._fire)
+        self.old_timer = signal.setitimer(signal.ITIMER_REAL, self.seconds)
+        return self
+
+    def __exit__(self, *exc):
+        signal.setitimer(signal.ITIMER_REAL, 0)
+        signal.signal(signal.SIGALRM, self.old_handler)
+        if self.old_timer[0] > 0:
+            signal.setitimer(signal.ITIMER_REAL, max(0.5, self.old_timer[0] - self.seconds))
+        return False
+
+
 class alarm:
     """Wall-clock backstop for one run (never a pass: surfaces as HARNESS-ERROR)."""
 
